@@ -75,6 +75,20 @@ def gen_cases(ctx, rng):
                         "horizon": 3600 * 1000 * L.MS, "seed": 1000 + i}, 1500)
         cases.append(c)
         stats["contention"] = stats.get("contention", 0) + 1
+    # a receiver that takes longer than 5 s over a write (the time after which the flush paths of a reconfiguration give up): on a
+    # connection that is not being reconfigured nothing may ever be given up on, whatever the toxics
+    for i in range(20 if ctx.tier == "quick" else 500):
+        chain = [gen_toxic(rng, j) for j in range(rng.range(1, 3))]
+        slow = rng.choice([5500, 8000, 20000]) * L.MS
+        src, t0 = [], 1 * L.MS
+        for _ in range(rng.range(2, 5)):
+            src.append({"at": t0, "n": rng.range(20, 900)})
+            t0 += rng.choice([0, 1, 30]) * L.MS
+        src.append({"at": t0 + 400000 * L.MS, "close": True})
+        c = L.cap_case({"dir": rng.choice(["upstream", "downstream"]), "chain": chain, "src": src, "sink_delay": [slow],
+                        "horizon": 36000 * 1000 * L.MS, "seed": 2000 + i}, 300)
+        cases.append(c)
+        stats["receiver_slower_than_5s"] = stats.get("receiver_slower_than_5s", 0) + 1
     return cases, stats
 
 
